@@ -8,7 +8,7 @@ checks=${@:-C01 C02 C03 C04 C05 C06 C07 C08 C09 C10 C11 C12 C13 C14 C15 C16 C17 
 work=/tmp/mutrun/$name
 rm -rf $work; mkdir -p $work
 git -C /repo worktree prune
-git -C /repo worktree add -q --detach $work/repo HEAD || exit 2
+git -C /repo worktree add -q --detach $work/repo ${SEED_BASE:-HEAD} || exit 2
 trap "git -C /repo worktree remove --force $work/repo" EXIT
 if ! git -C $work/repo apply $src/patch.diff; then echo "PATCH-DOES-NOT-APPLY"; exit 2; fi
 cp $src/demo.py $work/demo.py
